@@ -18,8 +18,8 @@ use std::collections::BTreeMap;
 
 pub struct C02;
 
-pub const RAND_POOL: u64 = 200_000;
-pub const BAIT_POOL: u64 = 150_000;
+pub const RAND_POOL: u64 = 300_000;
+pub const BAIT_POOL: u64 = 400_000;
 
 fn mnemonics(text: &str) -> BTreeMap<String, i64> {
     let mut m = BTreeMap::new();
@@ -259,8 +259,8 @@ impl Monitor for C02 {
         v.extend(split_chunks("pin", 0, np, np, 4));
         let nm = crate::matrix::matrix_len();
         let (nbait, nrand, nmat) = match tier {
-            Tier::Quick => (12_000, 6_000, nm / 3),
-            Tier::Thorough => (BAIT_POOL, 80_000, nm),
+            Tier::Quick => (40_000, 20_000, nm / 3),
+            Tier::Thorough => (BAIT_POOL, RAND_POOL, nm),
         };
         v.extend(split_chunks("matrix", seed_offset(seed, "C02m", nm), nmat, nm, 200));
         v.extend(split_chunks("bait", seed_offset(seed, "C02b", BAIT_POOL), nbait, BAIT_POOL, 150));
